@@ -83,7 +83,7 @@ class C13(Check):
         if prog.get("what") == "wrap" and prog.get("mal") != "none":
             return Violation("%s: the library process died (%s %s) while unwrapping a malformed blob (%s) instead of rejecting it" % (
                 getattr(self, "_desc", "wrap"), d.how, d.detail, prog["mal"]), prog)
-        return None
+        return Check.on_worker_death(self, ctx, prog, d)
 
     def V(self, msg):
         return Violation("%s: %s" % (self._desc, msg), self._prog)
